@@ -1,3 +1,4 @@
+import Pocket.Lemmas.EventMap
 import Pocket.Model.Refs
 import Pocket.Lemmas.StoreRead
 /-
@@ -38,5 +39,16 @@ theorem growth_may_move_witness :
     ∃ (v : MapView) (x : SEv) (steps : List MapStep),
       ¬ refValid (steps.foldl mapStep v) (takeRef v x) :=
   ⟨⟨4096, true⟩, ⟨8, default⟩, [.grow 8192], by unfold refValid takeRef; simp [mapStep]⟩
+
+/-- **what was written stays inside the file**: a store — whatever growth rounds it needs, `set_len`
+being able to truncate — only appends at or beyond the old end marker and never leaves the file shorter
+than that marker, so the bytes under every earlier reference are still the file's bytes at that offset
+(that they are still at the same ADDRESS is the open finding: the mapping may move) -/
+theorem written_region_survives_store (chunk : Nat) (hc : chunk % 8 = 0) (hpos : 0 < chunk) (m : EMap) (hi : EMInv m)
+    (size : Nat) :
+    ∃ m', emStore chunk m size = .ok (align8 m.marker, m') ∧ m.marker ≤ align8 m.marker ∧
+      align8 m.marker + size = m'.marker ∧ m'.marker ≤ m'.fileLen ∧ m.fileLen ≤ m'.fileLen := by
+  obtain ⟨m', h1, h2, h3, h4⟩ := emStore_ok chunk hc hpos m hi size
+  exact ⟨m', h1, align8_ge m.marker, h3.symm, by rw [← h2.mapFile]; exact h2.inMap, h4⟩
 
 end Pocket.C15
